@@ -19,8 +19,8 @@ structure SlotObs where
   deriving DecidableEq, Repr, Inhabited
 
 inductive Call
-  | initialize
-  | finalize
+  | initLib
+  | finiLib
   | slots                                           -- C_GetSlotList(FALSE, NULL) + list + token infos
   | initToken (slot : Nat) (pin : Option Bytes) (label : Bytes) (oSerial : Bytes)
   | openSession (slot : Nat) (flags : Nat)
@@ -417,12 +417,23 @@ def matchTpl (o : Obj) (tpl : Template) : Bool := tpl.all (matchEntry o)
 def visible (st : SState) (o : Obj) : Bool :=
   !o.isPriv || st == .roUser || st == .rwUser
 
-/-- assign the minted handles `counter+1 …` to the handle-less matches in the observed order -/
-def mintAll (hs : HTable) (slot hSess : Nat) : List (Nat × Obj) → HTable
+/-- `addTokenObject` / `addSessionObject` for objects without a handle: one new entry per object -/
+def mintAll (hs : HTable) (c : Nat) (slot hSess : Nat) : List Obj → HTable
   | [] => hs
-  | (hv, o) :: rest =>
-    mintAll (hs ++ [(hv, .obj { slot := slot, owner := if o.onToken then 0 else hSess, isPriv := o.isPriv, oid := o.oid })])
-      slot hSess rest
+  | o :: rest =>
+    mintAll (hs ++ [(c + 1, .obj { slot := slot, owner := if o.onToken then 0 else hSess, isPriv := o.isPriv, oid := o.oid })])
+      (c + 1) slot hSess rest
+
+/-- which handle-less match received the i-th new handle value, according to the observation (by label) -/
+def assignMinted (lack : List Obj) (oMinted : List (Nat × Bytes)) (base : Nat) : List Obj :=
+  (List.range lack.length).filterMap fun i =>
+    match oMinted.find? (·.1 == base + 1 + i) with
+    | some (_, lab) => lack.find? (·.label == lab)
+    | none => none
+
+def allDistinct : List Nat → Bool
+  | [] => true
+  | x :: xs => !xs.contains x && allDistinct xs
 
 def stepFindInit (s : State) (h : Nat) (tpl : Template) (oMinted : List (Nat × Bytes)) : State × Resp :=
   match sessTok s h with
@@ -431,20 +442,21 @@ def stepFindInit (s : State) (h : Nat) (tpl : Template) (oMinted : List (Nat × 
     if ss.op != .none then rOnly s CKR.OPERATION_ACTIVE else
     let st := stateOf t ss.rw
     let cands := s.objs.filter fun o => o.slot == ss.slot && visible st o && matchTpl o tpl
-    let (have_, lack) := cands.partition fun o => (s.handles.handleOf o.oid).isSome
-    -- pair each handle-less match with the handle the library minted for it (identified by label)
-    let paired := lack.filterMap fun o => (oMinted.find? (·.2 == o.label)).map fun m => (m.1, o)
-    let mintedVals := sortAsc (paired.map (·.1))
+    let have_ := cands.filter fun o => (s.handles.handleOf o.oid).isSome
+    let lack := cands.filter fun o => (s.handles.handleOf o.oid).isNone
+    -- the library mints handles counter+1 … for the handle-less matches in pointer order, which the model
+    -- cannot know: the observation says which object (by label) got which value
+    let assigned := assignMinted lack oMinted s.counter
     let expectVals := (List.range lack.length).map (· + s.counter + 1)
-    if paired.length != lack.length || mintedVals != expectVals || oMinted.length != lack.length then
+    if assigned.length != lack.length || !allDistinct (assigned.map (·.oid)) || oMinted.length != lack.length then
       -- the oracle is inconsistent with the model: report the handles the model expects (the driver flags it)
       (s, { rv := CKR.FUNCTION_FAILED, nums := expectVals })
     else
-      let handles := mintAll s.handles ss.slot h paired
-      let res := sortAsc (have_.filterMap (fun o => s.handles.handleOf o.oid) ++ mintedVals)
-      ({ s with counter := s.counter + lack.length,
+      let handles := mintAll s.handles s.counter ss.slot h assigned
+      let res := sortAsc (have_.filterMap (fun o => s.handles.handleOf o.oid) ++ expectVals)
+      ({ s with counter := s.counter + assigned.length,
                 handles := handles.setSess h { ss with op := .find, findRes := res } },
-       { rv := CKR.OK, nums := mintedVals })
+       { rv := CKR.OK, nums := expectVals })
 
 def stepFind (s : State) (h max : Nat) : State × Resp :=
   match s.handles.getSess h with
@@ -461,31 +473,30 @@ def stepFindFinal (s : State) (h : Nat) : State × Resp :=
     if ss.op != .find then rOnly s CKR.OPERATION_NOT_INITIALIZED else
     ({ s with handles := s.handles.setSess h { ss with op := .none, findRes := [] } }, { rv := CKR.OK })
 
+/-- every entry point first checks `isInitialised` -/
+def guardInit (s : State) (r : State × Resp) : State × Resp :=
+  if !s.initialised then rOnly s CKR.CRYPTOKI_NOT_INITIALIZED else r
+
 def step (s : State) (c : Call) : State × Resp :=
   match c with
-  | .initialize => stepInitialize s
-  | .finalize => stepFinalize s
-  | c =>
-    if !s.initialised then rOnly s CKR.CRYPTOKI_NOT_INITIALIZED else
-    match c with
-    | .initialize => stepInitialize s
-    | .finalize => stepFinalize s
-    | .slots => stepSlots s
-    | .initToken slot pin label ser => stepInitToken s slot pin label ser
-    | .openSession slot flags => stepOpenSession s slot flags
-    | .closeSession h => stepCloseSession s h
-    | .closeAll slot => stepCloseAll s slot
-    | .sessInfo h => stepSessInfo s h
-    | .login h u p => stepLogin s h u p
-    | .logout h => stepLogout s h
-    | .initPin h p => stepInitPin s h p
-    | .setPin h o n => stepSetPin s h o n
-    | .create h tpl e => stepCreate s h tpl e
-    | .destroy h o => stepDestroy s h o
-    | .objProbe h o => stepObjProbe s h o
-    | .findInit h tpl m => stepFindInit s h tpl m
-    | .find h m => stepFind s h m
-    | .findFinal h => stepFindFinal s h
+  | .initLib => stepInitialize s
+  | .finiLib => stepFinalize s
+  | .slots => guardInit s (stepSlots s)
+  | .initToken slot pin label ser => guardInit s (stepInitToken s slot pin label ser)
+  | .openSession slot flags => guardInit s (stepOpenSession s slot flags)
+  | .closeSession h => guardInit s (stepCloseSession s h)
+  | .closeAll slot => guardInit s (stepCloseAll s slot)
+  | .sessInfo h => guardInit s (stepSessInfo s h)
+  | .login h u p => guardInit s (stepLogin s h u p)
+  | .logout h => guardInit s (stepLogout s h)
+  | .initPin h p => guardInit s (stepInitPin s h p)
+  | .setPin h o n => guardInit s (stepSetPin s h o n)
+  | .create h tpl e => guardInit s (stepCreate s h tpl e)
+  | .destroy h o => guardInit s (stepDestroy s h o)
+  | .objProbe h o => guardInit s (stepObjProbe s h o)
+  | .findInit h tpl m => guardInit s (stepFindInit s h tpl m)
+  | .find h m => guardInit s (stepFind s h m)
+  | .findFinal h => guardInit s (stepFindFinal s h)
 
 def run (s : State) (cs : List Call) : State := cs.foldl (fun s c => (step s c).1) s
 
